@@ -197,7 +197,7 @@ func c09Explore(c *Ctx, stream string) {
 		c09Core(c, stream)
 	case "symbolize":
 		c09Symbolize(c)
-	case "e2e-session", "e2e-cli", "e2e-web", "e2e-lines":
+	case "e2e-session", "e2e-cli", "e2e-web", "e2e-lines", "e2e-numeric", "e2e-paths":
 		c09E2E(c, stream)
 	case "matrix-session-0", "matrix-session-1", "matrix-session-2", "matrix-cli", "matrix-web":
 		c09Matrix(c, stream)
